@@ -37,6 +37,8 @@ def _smt_worker(ob, expect, timeout_ms, conn, tactic):
             s = z3.Tactic(tactic).solver() if tactic else z3.Solver()
             s.set("timeout", timeout_ms)
             if ob.meta.get("mbqi") is False:
+                # E-matching only: sound for proving (unsat stays unsat); 'sat'/'unknown' answers are discarded
+                s.set("auto_config", False)
                 s.set("smt.mbqi", False)
             ob.add_to(s)
         r = s.check()
